@@ -164,7 +164,7 @@ func (s *Sim) apply(st Step) bool {
 		return s.stepMkSet(st)
 	case "delset":
 		return s.stepDelSet(st)
-	case "replicas", "slots", "slotadd", "scalein", "scaleout", "template", "partition", "strategy", "pause", "touch", "histlimit", "policy":
+	case "replicas", "slots", "slotadd", "scalein", "scaleout", "template", "partition", "strategy", "pause", "touch", "histlimit", "policy", "claimtmpl":
 		return s.stepEditSet(st)
 	case "resubmit":
 		return s.stepResubmit(st)
@@ -248,7 +248,7 @@ func (s *Sim) stepRelease(st Step) bool {
 
 // relto: A=parked worker, B=target. Releases the worker's calls without faults
 // until the call it is parked on is of the target kind (1 update pods, 2 status
-// write, 3 create pods, 4 delete pods) or the reconcile ends. A primitive for
+// write, 3 create pods, 4 delete pods, 5 delete controllerrevisions) or the reconcile ends. A primitive for
 // scenario tails: "stop right before the write that ...".
 func (s *Sim) stepReleaseTo(st Step) bool {
 	ws := s.ParkedWorkers()
@@ -266,6 +266,8 @@ func (s *Sim) stepReleaseTo(st Step) bool {
 			return c.Kind == KPod && c.Verb == "create"
 		case 4:
 			return c.Kind == KPod && c.Verb == "delete"
+		case 5:
+			return c.Kind == KRev && c.Verb == "delete"
 		}
 		return false
 	}
@@ -577,6 +579,12 @@ func (s *Sim) stepListerFault(st Step) bool {
 	if inf == nil {
 		return false
 	}
+	if s.claimGroupInFlight() {
+		// a worker is parked inside the claim loop of one pod: which claims it has
+		// already looked up depends on Go map order in the code under test, so a
+		// lookup fault planted now would or would not be met (DESIGN 13.2, claim groups)
+		return false
+	}
 	set, c := s.getSet(st.A)
 	if set == nil || c.Claims == 0 {
 		return false
@@ -648,10 +656,28 @@ func (s *Sim) stepEditSet(st Step) bool {
 			}
 			want := ModelSlots(o.Annotations)
 			want[int32(st.B)] = true
-			if err := helper.AddDeleteSlots(o, sets.NewInt32(int32(st.B))); err != nil {
-				harnessf("AddDeleteSlots: %v", err)
+			panicked := func() (msg string) {
+				defer func() {
+					if x := recover(); x != nil {
+						if he, ok := x.(HarnessError); ok {
+							panic(he)
+						}
+						msg = fmt.Sprintf("AddDeleteSlots panicked for annotation %q: %v", before[annSlots], x)
+					}
+				}()
+				if err := helper.AddDeleteSlots(o, sets.NewInt32(int32(st.B))); err != nil {
+					harnessf("AddDeleteSlots: %v", err)
+				}
+				return ""
+			}()
+			if panicked != "" {
+				// a client helper that panics on an admitted annotation value
+				s.violate("C01", "C01.helper-panic", "AddDeleteSlots", panicked)
+				s.violate("C15", "C15.panic", "client/apis/apps/v1/helper", panicked)
+				setSlotsAnn(o, want)
+			} else {
+				s.selfCheckSlots(o, want, before)
 			}
-			s.selfCheckSlots(o, want, before)
 		case "scalein":
 			d := Desired(specReplicas(o), ModelSlots(o.Annotations))
 			if len(d) == 0 {
@@ -730,6 +756,16 @@ func (s *Sim) stepEditSet(st Step) bool {
 			}
 		case "histlimit":
 			o.Spec.RevisionHistoryLimit = int32p(int32(abs(st.B)))
+		case "claimtmpl":
+			// the CRD does not make volumeClaimTemplates immutable: B templates from now on
+			// (existing pods keep what they were built with)
+			// (only ever fewer: a pod that lacks a volume for an added template needs a
+			// spec change the API server forbids for ever, which is outside C02's premise)
+			n := abs(st.B) % 3
+			if len(o.Spec.VolumeClaimTemplates) <= n {
+				return false
+			}
+			o.Spec.VolumeClaimTemplates = claimTemplates(n, c.ClaimLabels)
 		}
 		return true
 	})
